@@ -6,6 +6,7 @@ use num_bigint::BigUint;
 use rand::Rng;
 use serde_json::{json, Value};
 use star_sharks::{Fp, FpRepr};
+use std::convert::TryFrom;
 use std::io::Write;
 
 pub fn p_big() -> BigUint {
@@ -225,6 +226,28 @@ pub fn record(a: &Args) -> Report {
       _ => {}
     }
     strings.push(v.to_vec());
+  }
+  // the same strings through the share decoder, as x-coordinate and as y-coordinate
+  for s in &strings {
+    for pos in ["x", "y"] {
+      let mut b: Vec<u8> = Vec::new();
+      let mut one = vec![0u8; 24];
+      one[0] = 1;
+      if pos == "x" {
+        b.extend(s);
+        b.extend(&one);
+      } else {
+        b.extend(&one);
+        b.extend(s);
+      }
+      let r = guard(|| star_sharks::Share::try_from(b.as_slice()).ok().map(|sh| Vec::<u8>::from(&sh)));
+      let (ok, back) = match r {
+        Guard::Done(Some(v)) => (1, v),
+        _ => (0, vec![]),
+      };
+      ev(json!({"ev":"sharedec","pos":pos,"bytes": s, "some": ok, "back": back, "whole": b}),
+         format!("sharedec:{pos}:{}", hex(s)), &mut rep);
+    }
   }
   for s in strings {
     let mut arr = [0u8; 24];
